@@ -83,6 +83,27 @@ func init() {
 		}
 		return SliceV{s: out}
 	}
+	intrinsics["regexp.Compile"] = func(w *Worker, _ *ssa.Function, args []Value, _ ssa.CallInstruction) Value {
+		pat, ok := concreteStr(args[0].(StrV))
+		if !ok {
+			w.fail("regexp.Compile of symbolic pattern")
+		}
+		if _, err := regexp.Compile(pat); err != nil {
+			w.fail("regexp.Compile: pattern %q does not compile (error values of regexp are not modelled)", pat)
+		}
+		return TupleV{OpaqueV{"regexp:" + pat}, IfaceV{}}
+	}
+	intrinsics["(*regexp.Regexp).FindStringIndex"] = func(w *Worker, _ *ssa.Function, args []Value, _ ssa.CallInstruction) Value {
+		src, ok := concrete(w, args[1], "FindStringIndex")
+		if !ok {
+			w.fail("regexp FindStringIndex on a symbolic string")
+		}
+		l := w.nativeRegexp(args[0]).FindStringIndex(src)
+		if l == nil {
+			return SliceV{}
+		}
+		return SliceV{s: []Value{w.B.Const(uint64(l[0]), 64), w.B.Const(uint64(l[1]), 64)}}
+	}
 	intrinsics["(*regexp.Regexp).MatchString"] = func(w *Worker, _ *ssa.Function, args []Value, _ ssa.CallInstruction) Value {
 		src, ok := concrete(w, args[1], "MatchString")
 		if !ok {
